@@ -235,6 +235,7 @@ pub fn registry_labels(regs: &[crate::refiana::Reg]) -> Vec<Item> {
 pub fn kinds_plus() -> Vec<Item> {
     let mut k = gen::kinds();
     k.extend([
+        gen::arr(vec![gen::t("x")]),
         gen::arr(vec![gen::b(b"c")]),
         gen::arr(vec![gen::b(b"c"), gen::b(b"d")]),
         gen::arr(vec![gen::b(b"c"), gen::b(b"d"), gen::b(b"e")]),
